@@ -282,9 +282,4 @@ def firstFailCs (h : Heap) (ob : Observer) (x : W) : List Graph → Bool
     | .ok (y :: _) => firstFail h c y
 end
 
-/-- Number of paths along `g` from `x` that end in a *notifying* node at
-observable `o`: what the user notifier's reference count should be. -/
-def reach (h : Heap) (g : Graph) (x : W) (o : Observable) : Nat :=
-  ((hookList h ⟨0, 0⟩ true g x).filter (fun it => it.1 == o && it.2.equals (.user ⟨0, 0⟩))).length
-
 end TraitsVerif.Model.Obs
